@@ -115,6 +115,20 @@ def _infer_dtype(a, kind):
     return "float32" if kind == "torch" else "float64"
 
 
+INT_RANGE = {"int8": (-128, 256), "int16": (-32768, 65536), "int32": (-2 ** 31, 2 ** 32), "int64": (-2 ** 63, 2 ** 64), "uint8": (0, 256)}
+
+
+def wrap_int(v, dtype):
+    """two's-complement wrap of a CONCRETE integer stored into a fixed-width integer array (symbolic values are left
+    unwrapped: value ranges of symbolic data are bounded far below every width by the harnesses)"""
+    r = INT_RANGE.get(dtype)
+    if r is None or isinstance(v, (Sym, bool)) or not isinstance(v, (int, np.integer)):
+        return v
+    lo, mod = r
+    v = int(v)
+    return (v - lo) % mod + lo
+
+
 class Node:
     __slots__ = ("parents", "bw")
 
@@ -294,6 +308,8 @@ class Arr:
             return
         if isinstance(v, np.ndarray) and v.ndim == 0:
             v = v[()]
+        if self.dtype in INT_RANGE and self.dtype != "int64":
+            v = _uf(lambda q: wrap_int(q, self.dtype), 1)(v) if isinstance(v, np.ndarray) else wrap_int(v, self.dtype)
         try:
             self.a[key] = v
         except ValueError as e:
